@@ -52,7 +52,11 @@ def parseOp (j : Json) : R (Bool × Op) := do
       | [n, d] => return (← n.getStr?, ← parseProps d)
       | _ => throw "bad cfg pair")
     return (ok, .inst (← fldStr j "name") (← fldStr j "cls") cfg)
-  | "setprop" => return (ok, .setprop (← fldStr j "inst") (← fldStr j "par") (← fldStr j "key") (← fldStr j "val"))
+  | "setprop" =>
+    let path ← match j.getObjVal? "path" with
+      | .ok pj => (← arr pj).mapM (fun x => x.getNat?)
+      | .error _ => pure []
+    return (ok, .setprop (← fldStr j "inst") (← fldStr j "par") path (← fldStr j "key") (← fldStr j "val"))
   | "enum" => return (ok, .addEnum (← fldStr j "inst") (← fldStr j "par") (← fldStr j "member"))
   | k => throw s!"bad op {k}"
 
@@ -71,8 +75,9 @@ def jview (nv : String × Option AccView) : Json :=
   match nv.2 with
   | none => jarr [Json.str nv.1, Json.null]
   | some v =>
-    let dinfo := if v.isCmd then jarr [Json.str "command", jarr [], jarr [jopt jtree v.tree, Json.null], Json.null]
-                 else jopt jtree v.tree
+    let shown := v.tree.map DTree.exported
+    let dinfo := if v.isCmd then jarr [Json.str "command", jarr [], jarr [jopt jtree shown, Json.null], Json.null]
+                 else jopt jtree shown
     jarr [Json.str nv.1, Json.mkObj [("cmd", Json.bool v.isCmd), ("props", jprops (exportView tables v)),
       ("datainfo", dinfo), ("export", Json.str ((v.props.get? "export").getD "true"))]]
 
@@ -83,10 +88,15 @@ def ownerKey : Owner → String
 def owners (w : World) : List Owner :=
   w.classes.map (fun c => Owner.cls c.pure.decl.name) ++ w.insts.map (fun i => Owner.inst i.name)
 
-partial def treePaths (pfx : String) : DTree → List String
+/-- (identity inside the datatype object, path where the harness sees it): the one member of a `LimitsType` is
+seen at `/0` and at `/1` -/
+partial def treePaths (ident pfx : String) : DTree → List (String × String)
   | .node k _ c _ =>
-    pfx :: (if k == "enum" then [pfx ++ "/enum"] else
-      (c.zipIdx.flatMap (fun ci => treePaths (pfx ++ "/" ++ toString ci.2) ci.1)))
+    (ident, pfx) :: (if k == "enum" then [(ident ++ "/enum", pfx ++ "/enum")]
+      else if k == "limits" then
+        (c.take 1).flatMap (fun ch => treePaths (ident ++ "/0") (pfx ++ "/0") ch ++ treePaths (ident ++ "/0") (pfx ++ "/1") ch)
+      else
+      (c.zipIdx.flatMap (fun ci => treePaths (ident ++ "/" ++ toString ci.2) (pfx ++ "/" ++ toString ci.2) ci.1)))
 
 /-- (object identity, where it is seen) for everything the harness takes the `id()` of -/
 def identities (w : World) : List ((Nat × String) × String) :=
@@ -95,7 +105,7 @@ def identities (w : World) : List ((Nat × String) × String) :=
     ((nr.2, ""), here) :: match w.heap.accAt nr.2 with
       | some a => match a.dtype with
         | some rd => match w.heap.dtAt rd with
-          | some t => (treePaths "" t).map (fun p => ((rd, p), here ++ "/dt" ++ p))
+          | some t => (treePaths "" "" t).map (fun p => ((rd, p.1), here ++ "/dt" ++ p.2))
           | none => []
         | none => []
       | none => []))
